@@ -685,6 +685,54 @@ def rule_r19(ctx):
                      "431 / 414 depending on how its bytes were split across reads" % f.line_of(*pos))
 
 
+# ---------------------------------------------------------------------------
+# R21: one entry per key in a lookup table
+
+
+def rule_r21(ctx):
+    r = ctx.rule("C16.R21", "T11", "one entry per key in a lookup table: in a static table of records whose first field is an "
+                 "enumerator (status code -> reason phrase, ...) that is searched for the first match, no enumerator is the key "
+                 "of two entries -- the second one is dead, and the code it was written for (a copy-and-paste slip: "
+                 "BAD_REQUEST twice, BAD_GATEWAY never) has no entry: a 502 goes out as '502 Unknown HTTP Status'", floor=1)
+    r.own_opinion = True
+    prog = ctx.prog
+    n = 0
+    for f in prog.functions:
+        if f.cfg_failed or f.file.endswith("_test.c"):
+            continue
+        for t in f.sites():
+            if t.node.get("k") != "decls":
+                continue
+            for d in t.node["d"]:
+                ini = d.get("init")
+                if not isinstance(ini, dict) or ini.get("k") != "initarr":
+                    continue
+                keys = []
+                for e in ini.get("elems", []):
+                    if not isinstance(e, dict) or e.get("k") != "init":
+                        keys = None
+                        break
+                    flds = list(e.get("fields", {}).items())
+                    if not flds or not isinstance(flds[0][1], dict) or flds[0][1].get("k") != "enum":
+                        if flds and isinstance(flds[0][1], dict) and const_of(flds[0][1]) == 0:
+                            continue        # terminator
+                        keys = None
+                        break
+                    keys.append(flds[0][1]["n"])
+                if not keys or len(keys) < 4:
+                    continue
+                n += 1
+                dup = sorted({k for k in keys if keys.count(k) > 1})
+                if dup:
+                    ctx.fail(r, f, "table %s has two entries for %s" % (d["n"], dup[0]), t.line,
+                             "the table %s in %s lists %s more than once: a first-match search never reaches the later entry, "
+                             "and the value that entry was meant for is missing from the table" % (d["n"], f.name, ", ".join(dup)))
+                else:
+                    r.ob(f, "table %s: %d entries, keys distinct" % (d["n"], len(keys)))
+    if n < 1:
+        raise AnalysisBroken("no enumerator-keyed lookup table found (nni_http_reason had one)")
+
+
 def run(ctx):
     ctx.guard(rule_r1)
     ctx.guard(rule_r2)
@@ -706,6 +754,7 @@ def run(ctx):
     ctx.guard(rule_r17)
     ctx.guard(rule_r18)
     ctx.guard(rule_r19)
+    ctx.guard(rule_r21)
     from . import c20
     ctx.guard(c20.rule_r25)          # a line that does not parse is refused: its status is not overwritten by the next line's
     for rr in ctx.rules:
